@@ -1,9 +1,9 @@
 """C05: the native tracer borrows the process-wide trace function (ghost `trace_fn` = sys.gettrace())."""
 from pyvc.dsl import *
-from pedal.sandbox.tracer import SandboxNativeTracer
+from pedal.sandbox.tracer import SandboxNativeTracer, SandboxCallTracer
 import sys
 
-INSTANCE_CLASSES = [SandboxNativeTracer]
+INSTANCE_CLASSES = [SandboxNativeTracer, SandboxCallTracer]
 
 
 @target("pedal.sandbox.tracer:SandboxNativeTracer.__enter__")
@@ -27,3 +27,28 @@ def native__exit__(self, exc_type, exc_val, traceback):
             eqv(ghost_val('trace_fn'), old(item(self._old_tracers, nitems(self._old_tracers) - 1)))
             and nitems(self._old_tracers) == old(nitems(self._old_tracers)) - 1))
     ensures("exceptions_not_suppressed", not truthy(result))
+
+
+@target("pedal.sandbox.tracer:SandboxCallTracer.__enter__")
+def calls__enter__(self):
+    requires(instance_of(self, SandboxCallTracer) and is_list(self._old_traces) and has_attr(self, 'trace_dispatch'))
+    abstract("self.reset", raises=None, modifies=[attrs(self)], ensures=[is_list(self._old_traces),
+             same_seq(items(self._old_traces), old(items(self._old_traces))), eqv(self._old_traces, old(self._old_traces)),
+             has_attr(self, 'trace_dispatch')])
+    abstract("sys.gettrace", raises=None, ensures=[eqv(result, ghost_val('trace_fn'))])
+    abstract("sys.settrace", raises=None, modifies=[ghost('trace_fn')], ensures=[eqv(ghost_val('trace_fn'), arg0)])
+    modifies(attrs(self), items(self._old_traces), ghost('trace_fn'))
+    raises_nothing()
+    ensures("previous_function_pushed", same_seq(items(self._old_traces), old(items(self._old_traces)) + [old(ghost_val('trace_fn'))]))
+
+
+@target("pedal.sandbox.tracer:SandboxCallTracer.__exit__")
+def calls__exit__(self, exc_type, exc_val, traceback):
+    requires(instance_of(self, SandboxCallTracer) and is_list(self._old_traces))
+    abstract("sys.settrace", raises=None, modifies=[ghost('trace_fn')], ensures=[eqv(ghost_val('trace_fn'), arg0)])
+    abstract("isinstance", raises=None, ensures=[is_bool(result)])
+    modifies(self.quitting, items(self._old_traces), ghost('trace_fn'))
+    raises_nothing()
+    ensures("innermost_previous_function_restored", implies(old(nitems(self._old_traces)) > 0,
+            eqv(ghost_val('trace_fn'), old(item(self._old_traces, nitems(self._old_traces) - 1)))
+            and nitems(self._old_traces) == old(nitems(self._old_traces)) - 1))
